@@ -272,6 +272,33 @@ fn classify(c: &mut Ctx, k: &Case) {
     if k.filter.is_none() { c.class("no_filter"); }
 }
 
+/// 2^20 + 24 frames of one format through the CLI: the count must still be exact (only the end of the output is read)
+fn million_case() -> Result<(), String> {
+    let n = (1usize << 20) + 24;
+    let f17 = bits::es(17, 5, 0x4840D6, bits::me_raw(28, 7)).hex();
+    let p = run::tmp_dir().join("c16-million.txt");
+    let mut data = String::with_capacity(n * 29);
+    for _ in 0..n {
+        data.push_str(&f17);
+        data.push('\n');
+    }
+    let o = Opts { c: true, i: vec!["x".into()], upd: -1, ..Opts::default() };
+    std::fs::write(&p, data).map_err(|e| e.to_string())?;
+    let out = cli::run_file(true, &o, &p.to_string_lossy(), &[], true, Duration::from_secs(900)).map_err(|e| e.to_string());
+    let _ = std::fs::remove_file(&p);
+    let out = out?;
+    if out.timed_out {
+        return Ok(());
+    }
+    let tail = String::from_utf8_lossy(&out.stdout[out.stdout.len().saturating_sub(4000)..]).to_string();
+    let want = format!("DF17:{}", n);
+    let last = tail.lines().rev().find(|l| l.contains("DF17:")).unwrap_or("").trim().to_string();
+    if last != want {
+        return Err(format!("{} DF17 frames were fed with -c; the last counter line reads {:?}, expected {:?}", n, last, want));
+    }
+    Ok(())
+}
+
 fn run(c: &mut Ctx) {
     let cases = c.tier.pick(36_000, 600_000);
     let r = c.proptest(cases, case_strategy(70), |c, k, counting| {
@@ -304,6 +331,14 @@ fn run(c: &mut Ctx) {
             return;
         }
     }
+    if c.worker == 1 % c.nworkers && c.tier == crate::ctx::Tier::Thorough {
+        c.eval(1);
+        c.class("volume_2^20_frames_of_one_format");
+        if let Err(m) = million_case() {
+            c.fail(m, "c16:volume", json!({"kind":"volume_million"}));
+            return;
+        }
+    }
     let cases = c.tier.pick(320, 6_000);
     let r = c.proptest(cases, case_strategy(40), |c, k, counting| {
         match check_counters_cli(k) {
@@ -328,6 +363,12 @@ fn run(c: &mut Ctx) {
 
 fn replay(c: &mut Ctx, case: &Value) {
     c.eval(1);
+    if case["kind"].as_str() == Some("volume_million") {
+        if let Err(m) = million_case() {
+            c.fail(m, "c16:volume", case.clone());
+        }
+        return;
+    }
     if case["kind"].as_str() == Some("volume") {
         let f17 = bits::es(17, 5, 0x4840D6, bits::me_raw(28, 7)).hex().into_bytes();
         let f5 = bits::df5(0xA12345, 0x0808, 0).hex().into_bytes();
